@@ -116,7 +116,7 @@ func (g *genState) part(x *big.Int) *big.Int {
 func (g *genState) user() int { return g.r.Intn(3) }
 
 func (g *genState) recipient(sender int) int {
-	switch g.r.Weighted(30, 28, 1, 1) {
+	switch g.r.Weighted(30, 28, 1, 1, 4) {
 	case 1:
 		o := g.r.Intn(4)
 		if o == sender {
@@ -127,6 +127,8 @@ func (g *genState) recipient(sender int) int {
 		return acctFeeCol // blocked
 	case 3:
 		return -1 // not an address
+	case 4:
+		return 1001 + g.r.Intn(maxPools) // a pool escrow address (of this swap or of another pool)
 	}
 	return sender
 }
@@ -228,7 +230,7 @@ func (g *genState) genSwap() {
 		outPool = din
 	}
 	tb := b
-	if tb < 0 || tb == acctFeeCol {
+	if tb < 0 || tb == acctFeeCol || tb > 1000 {
 		tb = a
 	}
 	if !buy {
@@ -478,6 +480,40 @@ func (g *genState) genSend() {
 	g.push(st)
 }
 
+// MsgUpdateParams mid-history: mostly by the authority with valid parameters, sometimes by a
+// stranger, sometimes with a value out of range
+func (g *genState) genParamsStep() {
+	p := genParams(g.r)
+	if bi(p.CAmt).BitLen() > g.bits+4 {
+		p.CAmt = add(g.r.Big(g.bits+4), one()).String()
+	}
+	st := Step{K: "params", A: acctGov, P: &p}
+	switch g.r.Weighted(12, 3, 1, 4) {
+	case 1:
+		st.A = g.user() // not the authority
+	case 2:
+		st.A = -1 // not an address
+	case 3:
+		switch g.r.Intn(7) {
+		case 6:
+			p.CAmt = new(big.Int).Lsh(big.NewInt(1), 255).String() // 256 bits: refused since the 255-bit fix
+		case 0:
+			p.Fee = "0"
+		case 1:
+			p.Fee = p18.String()
+		case 2:
+			p.Tax = "0"
+		case 3:
+			p.UFee = p18.String()
+		case 4:
+			p.CAmt = "0"
+		case 5:
+			p.Tax = p18.String()
+		}
+	}
+	g.push(st)
+}
+
 func gen(r *lib.Rand, tier, stream string, i int) History {
 	if stream == "kernels" {
 		return genKernel(r, i)
@@ -525,6 +561,10 @@ func gen(r *lib.Rand, tier, stream string, i int) History {
 		}
 		if np == 1 && r.Chance(1, 3) {
 			g.genAdd(true)
+			continue
+		}
+		if r.Chance(1, 22) {
+			g.genParamsStep()
 			continue
 		}
 		switch r.Weighted(40, 10, 9, 8, 8, 7, 5, 2) {
